@@ -490,6 +490,16 @@ def _parse_tensordot_axes_to_matmul(axes, shape_a, shape_b):
         axes_b = tuple(range(axes))
     else:
         axes_a, axes_b = axes
+        for axs, ndim in ((axes_a, ndim_a), (axes_b, ndim_b)):
+            for ax in axs:
+                if not (-ndim <= ax < ndim):
+                    raise ValueError(
+                        f"Axis {ax} is out of bounds for array of "
+                        f"dimension {ndim}."
+                    )
+        # negative axes count from the end
+        axes_a = tuple(ax % ndim_a for ax in axes_a)
+        axes_b = tuple(ax % ndim_b for ax in axes_b)
 
     num_con = len(axes_a)
     if num_con != len(axes_b):
@@ -549,9 +559,15 @@ def tensordot(a, b, axes=2, *, backend=None):
     """
     try:
         # ensure hashable
-        axes = tuple(map(int, axes[0])), tuple(map(int, axes[1]))
+        axes_a, axes_b = axes[0], axes[1]
     except (IndexError, TypeError):
         axes = int(axes)
+    else:
+        # each side can be a single axis or a sequence of axes
+        axes = tuple(
+            tuple(map(int, ax)) if hasattr(ax, "__iter__") else (int(ax),)
+            for ax in (axes_a, axes_b)
+        )
 
     (
         eq_a,
